@@ -84,4 +84,16 @@ theorem nesting_transparent_run (S : Static) (hS : S.Valid) (orc : Oracle) (fuel
   exact ⟨1, m', tr', m2', ticks', h', hrun, ht, hre, hc2.obs⟩
 
 
+/-- **C09, whole run (callbacks)**, with the computable fuel bound. -/
+theorem nesting_transparent_run_fuel (S : Static) (hS : S.Valid) (orc : Oracle) (fuel rfuel : Nat)
+    (hr : S.resolveFuel ≤ rfuel) (t0 : SimTime) (now : Int) (sp : Speed) (steps nTicks : Nat)
+    (m m2 : MasterSt) (tr : TickRec) (ticks : List TickRec)
+    (h : masterInitial S orc fuel t0 now = .ok (m, tr))
+    (h2 : masterRun S orc fuel sp steps nTicks m [] [tr] = .ok (m2, ticks)) :
+    ∃ fuel' m' tr' m2' ticks', masterInitial (S.flatten rfuel) orc fuel' t0 now = .ok (m', tr') ∧
+      masterRun (S.flatten rfuel) orc fuel' sp steps nTicks m' [] [tr'] = .ok (m2', ticks') ∧
+      ticks.map (·.time) = ticks'.map (·.time) ∧ ticks.map (·.real) = ticks'.map (·.real) ∧
+      ∀ d, ObsEq (m2.sim.obsOf d) (m2'.sim.obsOf d) :=
+  nesting_transparent_run S hS orc fuel rfuel (hS.resolveStable hr) t0 now sp steps nTicks m m2 tr ticks h h2
+
 end Tickit
